@@ -1,0 +1,13 @@
+//go:build verif
+
+// Contracts for tracing spans (read as text by /verif's govc; comment-only).
+
+package alamos
+
+//@ # a span hands the error it records back unchanged (documented on the interface)
+//@ trusted func (s Span) Error(err error, exclude ...error) (r error)
+//@   ensures r == err
+//@   modifies nothing
+//@ trusted func (s Span) EndWith(err error, exclude ...error) (r error)
+//@   ensures r == err
+//@   modifies nothing
